@@ -487,6 +487,13 @@ var cfgInjectFamilies = [][]string{
 	{"match { method GET }", "match @m", "match {\n    host \"h.example\"\n  }"},
 }
 
+// the same for deliver blocks: the two ways of naming a signing secret, their options, retry and timeout
+var cfgDeliverFamilies = [][]string{
+	{"sign hmac \"raw:k\"", "sign hmac secret_ref \"S1\"", "sign hmac secret_ref \"S2\"", "sign hmac env:DELIVER_SECRET", "sign hmac secret_ref \"S1\" \"S2\"",
+		"sign secret_selection oldest_valid", "sign signature_header \"X-S\"", "sign timestamp_header \"X-T\""},
+	{"timeout 5s", "timeout 6s", "retry exponential max 3 base 1s cap 2s jitter 0", "retry exponential max 4 base 1s cap 2s jitter 0.5"},
+}
+
 // directive spellings that interact with each other (shorthand vs block vs dotted forms): injected into
 // blocks so that combinations the grammar generator avoids (because today's parser refuses them) are
 // still tried - a parser that starts to accept one must still round-trip it.
@@ -670,6 +677,21 @@ func cfgMutate(t *rapid.T, src string, env map[string]string, step int) (string,
 			if strings.HasSuffix(strings.TrimSpace(ln), "{") {
 				opens = append(opens, i)
 			}
+		}
+		var delivers []int
+		for _, i := range opens {
+			if strings.HasPrefix(strings.TrimSpace(lines[i]), "deliver ") {
+				delivers = append(delivers, i)
+			}
+		}
+		if len(delivers) > 0 && rapid.IntRange(0, 2).Draw(t, "in-deliver") == 0 {
+			at := delivers[rapid.IntRange(0, len(delivers)-1).Draw(t, "deliver-at")]
+			fam := cfgDeliverFamilies[rapid.IntRange(0, len(cfgDeliverFamilies)-1).Draw(t, "deliver-family")]
+			a := fam[rapid.IntRange(0, len(fam)-1).Draw(t, "da")]
+			b := fam[rapid.IntRange(0, len(fam)-1).Draw(t, "db")]
+			pos := at + 1
+			lines = append(lines[:pos], append([]string{"    " + a, "    " + b}, lines[pos:]...)...)
+			return strings.Join(lines, "\n"), kind
 		}
 		if k := idx(len(opens), "at"); k >= 0 {
 			fam := cfgInjectFamilies[rapid.IntRange(0, len(cfgInjectFamilies)-1).Draw(t, "family")]
